@@ -35,6 +35,45 @@ KINDS = {"bool": [".bool"], "int": [".int", ".bool"], "str": [".str"], "float": 
          "list": [".list"], "dict": [".dict"], "Mapping": [".dict"]}
 
 
+class _Subst(ast.NodeTransformer):
+    def __init__(self, mapping):
+        self.mapping = mapping
+
+    def visit_Name(self, node):
+        if isinstance(node.ctx, ast.Load) and node.id in self.mapping:
+            import copy
+            return copy.deepcopy(self.mapping[node.id])
+        return node
+
+
+def _pure(e):
+    """an expression without effects other than possibly raising: names, constants, attribute access, subscripts with constant
+    index, comparisons, boolean operators, conditional expressions, isinstance / len calls"""
+    if isinstance(e, (ast.Name, ast.Constant)):
+        return True
+    if isinstance(e, ast.Attribute):
+        return _pure(e.value)
+    if isinstance(e, ast.Subscript):
+        return _pure(e.value) and isinstance(e.slice, ast.Constant)
+    if isinstance(e, ast.UnaryOp) and isinstance(e.op, ast.Not):
+        return _pure(e.operand)
+    if isinstance(e, ast.BoolOp):
+        return all(_pure(v) for v in e.values)
+    if isinstance(e, ast.Compare):
+        return _pure(e.left) and all(_pure(c) for c in e.comparators)
+    if isinstance(e, ast.IfExp):
+        return _pure(e.test) and _pure(e.body) and _pure(e.orelse)
+    if isinstance(e, ast.Tuple):
+        return all(_pure(x) for x in e.elts)
+    if isinstance(e, ast.Call) and isinstance(e.func, ast.Name) and e.func.id in ("isinstance", "len") and not e.keywords:
+        return all(_pure(a) for a in e.args)
+    return False
+
+
+def _mentions(node, name):
+    return any(isinstance(n, ast.Name) and n.id == name for n in ast.walk(node))
+
+
 class HookTr:
     def __init__(self, fn):
         self.fn = fn
@@ -61,6 +100,37 @@ class HookTr:
         cv = inspect.getclosurevars(fn)
         self.env = dict(fn.__globals__)
         self.env.update(cv.nonlocals)
+        self.body = [self.inline(st) for st in self.body]
+
+    # -- calls to module-level helper predicates (single `return <expr>`) are expanded in place
+    def inline(self, node, depth=0):
+        tr = self
+
+        class T(ast.NodeTransformer):
+            def visit_Call(self, call):
+                self.generic_visit(call)
+                if isinstance(call.func, ast.Name) and call.func.id not in ("isinstance", "len", "str", "int"):
+                    f = tr.env.get(call.func.id)
+                    if inspect.isfunction(f) and f.__module__ == tr.fn.__module__ and not call.keywords:
+                        if depth > 5:
+                            raise Untranslatable("helper calls nested too deeply")
+                        try:
+                            ftree = ast.parse(textwrap.dedent(inspect.getsource(f))).body[0]
+                        except (OSError, TypeError, SyntaxError) as ex:
+                            raise Untranslatable(f"no source for helper {call.func.id}: {ex}")
+                        body = ftree.body
+                        if body and isinstance(body[0], ast.Expr) and isinstance(body[0].value, ast.Constant) and isinstance(body[0].value.value, str):
+                            body = body[1:]
+                        a = ftree.args
+                        params = [x.arg for x in a.args]
+                        if (len(body) != 1 or not isinstance(body[0], ast.Return) or body[0].value is None or a.vararg or a.kwarg or a.kwonlyargs
+                                or a.defaults or len(params) != len(call.args) or not all(_pure(x) for x in call.args)):
+                            raise Untranslatable(f"helper {call.func.id} is not a single-return function of plain arguments")
+                        import copy
+                        expr = _Subst(dict(zip(params, call.args))).visit(copy.deepcopy(body[0].value))
+                        return tr.inline(expr, depth + 1)
+                return call
+        return T().visit(node)
 
     # -- paths
     def path(self, e, item=None):
@@ -114,10 +184,20 @@ class HookTr:
             cl = e.args[1]
             names = cl.elts if isinstance(cl, ast.Tuple) else [cl]
             ks = []
+            expanded = []
             for n in names:
                 nm = n.id if isinstance(n, ast.Name) else (n.attr if isinstance(n, ast.Attribute) else None)
+                if nm not in KINDS and isinstance(n, ast.Name):
+                    # a module-level constant holding a type or a tuple of types
+                    v = self.env.get(n.id)
+                    vs = list(v) if isinstance(v, tuple) else [v]
+                    if vs and all(isinstance(t, type) and t.__module__ in ("builtins", "collections.abc", "typing") for t in vs):
+                        expanded += [t.__name__ for t in vs]
+                        continue
+                expanded.append(nm)
+            for nm in expanded:
                 if nm not in KINDS:
-                    raise Untranslatable(f"isinstance against {ast.unparse(n)}")
+                    raise Untranslatable(f"isinstance against {nm}")
                 for k in KINDS[nm]:
                     if k not in ks:
                         ks.append(k)
@@ -150,6 +230,11 @@ class HookTr:
             tgt = e.args[0]
             if not (isinstance(tgt, ast.Name) and ((item is None and tgt.id == self.obj) or (item is not None and tgt.id == item))):
                 raise Untranslatable(f"structure() of {ast.unparse(tgt)}")
+            if isinstance(e.args[1], ast.IfExp):
+                # the class is chosen by a conditional expression: the condition is evaluated before the call
+                ie = e.args[1]
+                mk = lambda t: ast.Call(func=e.func, args=[e.args[0], t], keywords=[])  # noqa: E731
+                return f"(.ite {self.cond(ie.test, item)} {self.ret(mk(ie.body), item)} {self.ret(mk(ie.orelse), item)})"
             return f"(.structAs {self.type_of(e.args[1])})"
         if isinstance(e, ast.Call) and isinstance(e.func, ast.Name) and e.func.id == "str" and len(e.args) == 1:
             a = e.args[0]
@@ -166,6 +251,16 @@ class HookTr:
         if isinstance(e, ast.ListComp) and item is None and len(e.generators) == 1:
             g = e.generators[0]
             if (not g.ifs and isinstance(g.target, ast.Name) and isinstance(g.iter, ast.Name) and g.iter.id == self.obj):
+                # an element class chosen once, before the loop, by a condition on the whole object (it does not mention the item):
+                # [f(item, A if c else B) for item in o]  with c evaluated per item but constant  ==  (A-loop if c else B-loop) when o is non-empty;
+                # only accepted through `hoisted` below, i.e. when the source computed the class in a local before the comprehension
+                hc = getattr(self, "hoisted", None)
+                if hc is not None and self.is_structure_call(e.elt) and isinstance(e.elt.args[1], ast.IfExp) and ast.dump(e.elt.args[1]) == ast.dump(hc) \
+                        and not _mentions(hc, g.target.id):
+                    ie = e.elt.args[1]
+                    mk = lambda t: ast.ListComp(elt=ast.Call(func=e.elt.func, args=[e.elt.args[0], t], keywords=[]), generators=e.generators)  # noqa: E731
+                    self.hoisted = None
+                    return f"(.ite {self.cond(ie.test, None)} {self.ret(mk(ie.body), None)} {self.ret(mk(ie.orelse), None)})"
                 return f"(.mapEach {self.ret(e.elt, item=g.target.id)})"
         if isinstance(e, ast.IfExp):
             return f"(.ite {self.cond(e.test, item)} {self.ret(e.body, item)} {self.ret(e.orelse, item)})"
@@ -183,6 +278,33 @@ class HookTr:
         s, rest = stmts[0], stmts[1:]
         if isinstance(s, ast.Expr) and isinstance(s.value, ast.Constant):
             return self.block(rest)
+        if isinstance(s, ast.AnnAssign) and isinstance(s.target, ast.Name) and s.value is not None:
+            s = ast.Assign(targets=[s.target], value=s.value)
+        if isinstance(s, ast.If) and len(s.body) == 1 and len(s.orelse) == 1:
+            # if c: x = A  else: x = B     ==     x = A if c else B
+            def single(st):
+                if isinstance(st, ast.AnnAssign) and isinstance(st.target, ast.Name) and st.value is not None:
+                    return st.target.id, st.value
+                if isinstance(st, ast.Assign) and len(st.targets) == 1 and isinstance(st.targets[0], ast.Name):
+                    return st.targets[0].id, st.value
+                return None
+            a, b = single(s.body[0]), single(s.orelse[0])
+            if a and b and a[0] == b[0] and _pure(a[1]) and _pure(b[1]) and _pure(s.test):
+                s = ast.Assign(targets=[ast.Name(id=a[0], ctx=ast.Store())], value=ast.IfExp(test=s.test, body=a[1], orelse=b[1]))
+        if (isinstance(s, ast.Assign) and len(s.targets) == 1 and isinstance(s.targets[0], ast.Name) and _pure(s.value) and rest
+                and s.targets[0].id not in (self.obj, self.args[1])):
+            # a local bound once to an effect-free expression and consumed by the very next statement: its uses are replaced by the
+            # expression (evaluation moves from the assignment to the first use in the next statement; the correspondence stream is
+            # what checks that this never turns a raising hook into a returning one)
+            x = s.targets[0].id
+            later_store = any(isinstance(n, ast.Name) and n.id == x and isinstance(n.ctx, ast.Store) for st in rest for n in ast.walk(st))
+            if not later_store and _mentions(rest[0], x):
+                import copy
+                if isinstance(s.value, ast.IfExp):
+                    self.hoisted = s.value
+                new_rest = [_Subst({x: s.value}).visit(copy.deepcopy(st)) for st in rest]
+                return self.block(new_rest)
+            raise Untranslatable(f"local {x} is re-assigned or not used by the next statement")
         if isinstance(s, ast.Return):
             return self.ret(s.value if s.value is not None else ast.Constant(None))
         if isinstance(s, ast.Raise):
